@@ -128,12 +128,67 @@ pub fn run_cli(args: &[String], files: &BTreeMap<String, Vec<u8>>, dirs: &[Strin
 fn marker_of(line: &str) -> Option<String> {
     let l = line.trim();
     let rest = l.strip_prefix("print(\"mk-")?;
-    let n = rest.strip_suffix("\")")?;
-    if n.chars().all(|c| c.is_ascii_digit()) {
+    let end = rest.find("\")")?;
+    let (n, after) = (&rest[..end], rest[end + 2..].trim());
+    if !n.is_empty() && n.chars().all(|c| c.is_ascii_digit()) && (after.is_empty() || after.starts_with('#')) {
         Some(format!("mk-{n}"))
     } else {
         None
     }
+}
+
+/// Marker printed by a script line: its own `print("mk-n")`, or the marker printed by the user
+/// module that a `use user::…` line imports.
+fn line_marker(line: &str, trace: &Value) -> Option<String> {
+    if let Some(m) = marker_of(line) {
+        return Some(m);
+    }
+    let um = &trace["user_module"];
+    if let (Some(name), Some(marker)) = (um["name"].as_str(), um["marker"].as_str())
+        && line.trim() == format!("use {name}")
+    {
+        return Some(marker.to_string());
+    }
+    None
+}
+
+fn add_user_module_file(trace: &Value, files: &mut BTreeMap<String, Vec<u8>>) {
+    let um = &trace["user_module"];
+    if let (Some(path), Some(src)) = (um["path"].as_str(), um["source"].as_str()) {
+        files.insert(path.to_string(), src.as_bytes().to_vec());
+    }
+}
+
+fn label_in(stderr: &str) -> Option<String> {
+    for l in stderr.lines() {
+        if let Some(p) = l.find("┌─ ") {
+            let loc = &l[p + "┌─ ".len()..];
+            let parts: Vec<&str> = loc.rsplitn(3, ':').collect();
+            if parts.len() == 3 && !parts[2].is_empty() {
+                return Some(parts[2].to_string());
+            }
+        }
+    }
+    None
+}
+
+/// (label of `script.nbt`, label of the -e input) as the binary under test prints them.
+fn source_labels(modules_path: &str) -> (Option<String>, Option<String>) {
+    static LABELS: std::sync::OnceLock<(Option<String>, Option<String>)> = std::sync::OnceLock::new();
+    LABELS
+        .get_or_init(|| {
+            let mut files: BTreeMap<String, Vec<u8>> = BTreeMap::new();
+            files.insert("run/script.nbt".into(), b"1 +".to_vec());
+            let a = run_cli(&["--no-config".into(), "--no-init".into(), "script.nbt".into()], &files, &[], modules_path);
+            let b = run_cli(
+                &["--no-config".into(), "--no-init".into(), "-e".into(), "1 +".into()],
+                &BTreeMap::new(),
+                &[],
+                modules_path,
+            );
+            (label_in(&a.stderr), label_in(&b.stderr))
+        })
+        .clone()
 }
 
 fn normalise_stderr(s: &str) -> String {
@@ -165,6 +220,7 @@ fn raw_invocation(trace: &Value) -> Option<CliOut> {
     if let Some(i) = trace["init"].as_str() {
         files.insert("cfg/numbat/init.nbt".into(), i.as_bytes().to_vec());
     }
+    add_user_module_file(trace, &mut files);
     if channel == "e" || channel == "split" {
         for l in &e_lines {
             args.push("-e".into());
@@ -215,6 +271,10 @@ pub fn exec_trace(trace: &Value, res: &mut ExecResult) -> u64 {
     }
     if let Some(i) = init {
         files.insert("cfg/numbat/init.nbt".into(), i.as_bytes().to_vec());
+    }
+    add_user_module_file(trace, &mut files);
+    if !trace["user_module"].is_null() {
+        res.bump("probe.user_module_imported");
     }
     let has_file = channel == "file" || channel == "split";
     if has_file {
@@ -295,8 +355,8 @@ pub fn exec_trace(trace: &Value, res: &mut ExecResult) -> u64 {
     let stdout_lines: Vec<&str> = out.stdout.lines().map(|l| l.trim()).collect();
 
     // markers by input
-    let file_markers: Vec<String> = if has_file { file_lines.iter().filter_map(|l| marker_of(l)).collect() } else { vec![] };
-    let e_markers: Vec<String> = if channel != "file" { e_lines.iter().filter_map(|l| marker_of(l)).collect() } else { vec![] };
+    let file_markers: Vec<String> = if has_file { file_lines.iter().filter_map(|l| line_marker(l, trace)).collect() } else { vec![] };
+    let e_markers: Vec<String> = if channel != "file" { e_lines.iter().filter_map(|l| line_marker(l, trace)).collect() } else { vec![] };
     let init_markers: Vec<String> = init.map(|i| i.lines().filter_map(marker_of).collect()).unwrap_or_default();
 
     // 1. exit status
@@ -361,7 +421,7 @@ pub fn exec_trace(trace: &Value, res: &mut ExecResult) -> u64 {
             let lines = if where_ == "file" { &file_lines } else { &e_lines };
             if let Some(l) = lines.get(idx)
                 && l.trim().len() >= 6
-                && marker_of(l).is_none()
+                && line_marker(l, trace).is_none()
                 && out.stdout.contains(l.trim())
             {
                 leaked = true;
@@ -388,7 +448,7 @@ pub fn exec_trace(trace: &Value, res: &mut ExecResult) -> u64 {
             let lines = if where_ == "file" { &file_lines } else { &e_lines };
             let static_stage = matches!(stage, "parse" | "resolve" | "name" | "type");
             for (i, l) in lines.iter().enumerate() {
-                if let Some(m) = marker_of(l) {
+                if let Some(m) = line_marker(l, trace) {
                     let forbidden = i > idx || static_stage;
                     if forbidden && count(&m) > 0 {
                         res.fail("stdout-markers", format!("marker {m} (line {i}) was printed although line {idx} fails at stage {stage}{}: {}", if static_stage { " and the input must be rejected as a whole" } else { "" }, describe()));
@@ -494,13 +554,20 @@ pub fn exec_trace(trace: &Value, res: &mut ExecResult) -> u64 {
         }
         // diagnostics: the same once source labels are replaced (the only difference the
         // channels are allowed to show); compared line by line on the lines that carry messages
+        // The two channels may name their source differently, and only that. How each channel
+        // names its source is learnt once per process from a one-line failing script (location
+        // line `┌─ <label>:line:col` of the rendered diagnostic), so any labelling is accepted.
+        let (file_label, e_label) = source_labels(&modules_path);
         let strip = |s: &str| -> Vec<String> {
-            s.replace("File script.nbt", "<SRC>")
-                .replace("<input:1>", "<SRC>")
-                .lines()
-                .map(|l| l.to_string())
-                .collect()
+            let mut t = s.to_string();
+            for lab in [&file_label, &e_label].into_iter().flatten() {
+                t = t.replace(lab.as_str(), "<SRC>");
+            }
+            t.lines().map(|l| l.to_string()).collect()
         };
+        if file_label.is_none() || e_label.is_none() {
+            res.bump("probe.source_labels_not_learnt");
+        }
         if strip(&out.stderr) != strip(&out2.stderr) {
             res.fail(
                 "channel-equivalence",
@@ -578,6 +645,30 @@ fn gen_trace(w: &mut SessWorker, rng: &mut Rng, res: &mut ExecResult) -> Option<
         last_is_expr = false;
     }
 
+    // a user module in <config dir>/numbat/modules, imported by the script: its prints and
+    // definitions belong to the importing input, its failures are failures of that input
+    let mut user_module = Value::Null;
+    let mut user_module_src = String::new();
+    if !no_prelude && rng.chance(0.2) {
+        let k = rng.range(1, 99);
+        let name = format!("user::mod{k}");
+        let marker = format!("mk-{}", 9500 + k);
+        user_module_src = format!(
+            "# user module {k}\nprint(\"{marker}\")\nlet umv{k} = 3 m\nfn umf{k}(x: Scalar) -> Scalar = x + {}",
+            rng.range(1, 9)
+        );
+        let positions: Vec<usize> = (0..=lines.len()).filter(|i| *i == 0 || !lines[*i - 1].starts_with('@')).collect();
+        let at = *rng.pick(&positions);
+        lines.insert(at, format!("use {name}"));
+        if rng.chance(0.6) {
+            let later: Vec<usize> = (at + 1..=lines.len()).filter(|i| !lines[*i - 1].starts_with('@')).collect();
+            let at2 = *rng.pick(&later);
+            lines.insert(at2, format!("assert_eq(umv{k} + umf{k}(0) m, {} m)", 3 + (user_module_src.chars().last().unwrap() as u8 - b'0') as i64));
+        }
+        w.importer.add_module(&name, &user_module_src);
+        user_module = json!({"name": name, "path": format!("cfg/numbat/modules/user/mod{k}.nbt"), "marker": marker});
+    }
+
     // blank lines (an empty -e argument / an empty line in the file)
     if rng.chance(0.2) {
         let positions: Vec<usize> = (0..=lines.len()).filter(|i| *i == 0 || !lines[*i - 1].starts_with('@')).collect();
@@ -614,7 +705,11 @@ fn gen_trace(w: &mut SessWorker, rng: &mut Rng, res: &mut ExecResult) -> Option<
             vec![FaultKind::Parse, FaultKind::UnknownModule, FaultKind::NameClash, FaultKind::TypeError, FaultKind::RuntimeError]
         };
         let kind = rng.pick(&kinds).clone();
-        let stmt = if no_prelude {
+        // the fault may sit inside the imported user module instead of the script itself
+        let break_module = !user_module.is_null() && rng.chance(0.5);
+        let stmt = if break_module {
+            String::new()
+        } else if no_prelude {
             match kind {
                 FaultKind::Parse => "1 +".to_string(),
                 FaultKind::UnknownModule => "use nonexistent::module".to_string(),
@@ -629,18 +724,32 @@ fn gen_trace(w: &mut SessWorker, rng: &mut Rng, res: &mut ExecResult) -> Option<
             "e" => true,
             _ => rng.chance(0.5),
         };
+        let use_line = format!("use {}", user_module["name"].as_str().unwrap_or("-"));
+        let target_e = if break_module { e_lines.iter().any(|l| *l == use_line) } else { target_e };
         let tl = if target_e { &mut e_lines } else { &mut file_lines };
-        let mut positions: Vec<usize> = (0..=tl.len()).filter(|i| *i == 0 || !tl[*i - 1].starts_with('@')).collect();
-        if positions.is_empty() {
-            positions.push(0);
+        let idx;
+        if break_module {
+            idx = tl.iter().position(|l| *l == use_line).unwrap_or(0);
+            let bad = *rng.pick(&["let = 3 +", "let ubad: Time = 1 m", "assert(1 == 2)", "use user::nonexistent", "1 / 0"]);
+            user_module_src = if rng.chance(0.6) {
+                format!("{user_module_src}\n{bad}")
+            } else {
+                format!("{bad}\n{user_module_src}")
+            };
+            w.importer.add_module(user_module["name"].as_str().unwrap_or("-"), &user_module_src);
+        } else {
+            let mut positions: Vec<usize> = (0..=tl.len()).filter(|i| *i == 0 || !tl[*i - 1].starts_with('@')).collect();
+            if positions.is_empty() {
+                positions.push(0);
+            }
+            let at = *rng.pick(&positions);
+            let stmt_lines: Vec<String> = stmt.lines().map(|s| s.to_string()).collect();
+            idx = at + stmt_lines.len() - 1;
+            for (k, l) in stmt_lines.into_iter().enumerate() {
+                tl.insert(at + k, l);
+            }
         }
-        let at = *rng.pick(&positions);
-        let stmt_lines: Vec<String> = stmt.lines().map(|s| s.to_string()).collect();
-        let idx = at + stmt_lines.len() - 1;
-        for (k, l) in stmt_lines.into_iter().enumerate() {
-            tl.insert(at + k, l);
-        }
-        if kind == FaultKind::Parse && rng.chance(0.3) {
+        if kind == FaultKind::Parse && !break_module && rng.chance(0.3) {
             // a second syntax error further down: several diagnostics for one input
             let later: Vec<usize> = (idx + 1..=tl.len()).filter(|i| !tl[*i - 1].starts_with('@')).collect();
             if !later.is_empty() {
@@ -667,7 +776,7 @@ fn gen_trace(w: &mut SessWorker, rng: &mut Rng, res: &mut ExecResult) -> Option<
             res.bump("gen.discarded");
             return None;
         }
-        fault = json!({"where": if target_e {"e"} else {"file"}, "index": idx, "stage": stage, "kind": kind.name()});
+        fault = json!({"where": if target_e {"e"} else {"file"}, "index": idx, "stage": stage, "kind": if break_module { "broken-user-module" } else { kind.name() }});
         if let Some(at2) = second_parse_at
             && o.parse_errors >= 2
         {
@@ -767,6 +876,11 @@ fn gen_trace(w: &mut SessWorker, rng: &mut Rng, res: &mut ExecResult) -> Option<
         "check_equivalence": rng.chance(0.5),
         "file_first": rng.chance(0.5),
         "e_groups": e_groups,
+        "user_module": if user_module.is_null() { Value::Null } else {
+            let mut um = user_module.clone();
+            um["source"] = json!(user_module_src);
+            um
+        },
     }))
 }
 
